@@ -102,4 +102,65 @@ def trace (ops : List Op) : Except Err Unit :=
   | .ok s => finish s
   | .error e => .error e
 
+/-! ## Unpacking of arguments (`unpack_guppy_object`) and where in-place mutation is possible
+
+A comptime argument is turned into Python values: a Guppy tuple into a Python `tuple` (immutable), a struct
+into a `GuppyStructObject(…, frozen)`, an array of static non-zero length into a `list` / `frozenlist`;
+`frozen` (= the argument is not borrowed) is passed down to **every** recursive call.  Arrays have one
+element type, so one representative element is kept. -/
+
+inductive Shape where
+  | leaf
+  | arr (elem : Shape)
+  | struct (a b : Shape)
+  | tuple (a b : Shape)
+  deriving DecidableEq, Repr
+
+/-- the Python value: mutable containers carry their `frozen` flag -/
+inductive Val where
+  | leaf
+  | list (frozen : Bool) (elem : Val)
+  | struct (frozen : Bool) (a b : Val)
+  | tuple (a b : Val)
+  deriving DecidableEq, Repr
+
+/-- `unpack_guppy_object(obj, builder, frozen)` -/
+def unpack (frozen : Bool) : Shape → Val
+  | .leaf => .leaf
+  | .arr e => .list frozen (unpack frozen e)
+  | .struct a b => .struct frozen (unpack frozen a) (unpack frozen b)
+  | .tuple a b => .tuple (unpack frozen a) (unpack frozen b)
+
+inductive Step where
+  | elem | fst | snd
+  deriving DecidableEq, Repr
+
+/-- follow `v[i]`, `v.a` / `v[0]`, `v.b` / `v[1]` -/
+def Val.get : Val → Step → Option Val
+  | .list _ e, .elem => some e
+  | .struct _ a _, .fst => some a
+  | .struct _ _ b, .snd => some b
+  | .tuple a _, .fst => some a
+  | .tuple _ b, .snd => some b
+  | _, _ => none
+
+def Val.at : Val → List Step → Option Val
+  | v, [] => some v
+  | v, st :: p => match v.get st with
+    | some w => w.at p
+    | none => none
+
+/-- the `frozen` flag of the mutable container (list / struct object) a path leads to -/
+def Val.containerFlag : Val → Option Bool
+  | .list f _ => some f
+  | .struct f _ _ => some f
+  | _ => none
+
+/-- an in-place mutation (`x[i] = …`, `x.append(…)`, `x.f = …`, …) of the container at `path` -/
+def mutateAt (v : Val) (path : List Step) : Except Err Unit :=
+  match (v.at path).bind Val.containerFlag with
+  | some true => .error .frozen
+  | some false => .ok ()
+  | none => .error .badId      -- no mutable container there
+
 end GuppyVerif.TraceOwn
